@@ -235,6 +235,27 @@ def lean_check(props_module, generated=('intexpr',), extra_targets=('driver',), 
                 r.problems.append('leanchecker rejected ' + props_module + ': ' + (out2 + err2)[-500:])
     return r
 
+def prove_tie(chk, tie_module, translators, meaning, extra_targets=('driver',)):
+    """The tie by translation, after `chk.prove(<owning Props module>, generated=(…, *translators), extra_targets=())`:
+    build and audit `tie_module` (the kernel proofs that the definitions regenerated from the CURRENT source by `translators` equal the
+    model the property's theorems are about) together with the driver.  A source change outside a translator's subset (exit 3,
+    `untranslatable`) or one that breaks an equality proof lands in chk.broken (never skipped); the obligations of the tie module are
+    added to the check's obligations.  Returns True iff the tie holds (then the driver's generated ops are in step with the source)."""
+    tie = lean_check(tie_module, generated=(), extra_targets=extra_targets, leanchecker=chk.thorough)
+    tr = {n: chk.lean.translation.get(n, '') for n in translators}
+    tie_ok = tie.ok and not any(v.startswith('untranslatable') for v in tr.values())
+    lean = chk.lean
+    lean.obligations += tie.obligations
+    lean.discharged += tie.discharged if tie_ok else 0
+    lean.theorems = list(lean.theorems) + list(tie.theorems)
+    lean.axioms.update(tie.axioms)
+    if not tie.ok:
+        lean.problems = list(lean.problems) + [tie_module + ': ' + p for p in tie.problems]
+        chk.broken.append({'kind': 'proof', 'module': tie_module, 'translation': tr, 'problems': tie.problems, 'meaning': meaning})
+    chk.coverage['tie'] = {'module': tie_module, 'translators': ['tools/translate/%s2lean.py' % n for n in translators], 'translation': tr,
+                           'checked': tie_ok, 'theorems': tie.theorems, 'problems': tie.problems[:8]}
+    return tie_ok
+
 # ----------------------------------------------------------------------------- driver
 
 def driver_path():
